@@ -9,7 +9,8 @@
              run.RootContext tree (keys, shape, kinds and Render() of every leaf) + the merged environment's country
      CQuery  contactql.ParseQuery on a generated query under a policy: expected = projected error code, and the
              conditions of the accepted query in order
-     CEval   contactql.EvaluateQuery of an accepted URN-only query on a real contact *)
+     CEval   contactql.EvaluateQuery of an accepted URN-only query on a real contact
+     COp     Contact.AddURN / RemoveURN / UpdatePreferredChannel on a real contact: expected = the URN list afterwards *)
 From Coq Require Import List String Ascii ZArith NArith Bool.
 From Verif Require Import model.Redact.
 Import ListNotations.
@@ -76,10 +77,33 @@ Record ecase := { e_q : qnode; e_urns : list urn; e_result : bool }.
 Definition check_eval (k : ecase) : bool :=
   Bool.eqb (eval_query (fun _ _ _ _ => false) (e_urns k) (e_q k)) (e_result k).
 
-Inductive case := CCtx (k : ccase) | CQuery (k : qcase) | CEval (k : ecase).
+(* the operations on a real contact's URN list whose effect depends on the URNs held *)
+Inductive urn_op := UAdd (u : urn) | URemove (u : urn) | UPrefer (c : option channel).
+
+Definition utriple : Type := (string * string * string)%type.   (* scheme, path, channel affinity *)
+Record ocase := { o_op : urn_op; o_before : list urn; o_after : list utriple }.
+
+Definition apply_op (op : urn_op) (us : list urn) : list urn :=
+  match op with
+  | UAdd u => add_urn us u
+  | URemove u => remove_urn us u
+  | UPrefer c => update_preferred_channel c us
+  end.
+
+Fixpoint utriples_eqb (a b : list utriple) : bool :=
+  match a, b with
+  | [], [] => true
+  | (s, p, c) :: a', (s', p', c') :: b' => String.eqb s s' && String.eqb p p' && String.eqb c c' && utriples_eqb a' b'
+  | _, _ => false
+  end.
+
+Definition check_op (k : ocase) : bool :=
+  utriples_eqb (map (fun u => (u_scheme u, u_path u, u_affinity u)) (apply_op (o_op k) (o_before k))) (o_after k).
+
+Inductive case := CCtx (k : ccase) | CQuery (k : qcase) | CEval (k : ecase) | COp (k : ocase).
 
 Definition check (c : case) : bool :=
-  match c with CCtx k => check_ctx k | CQuery k => check_query k | CEval k => check_eval k end.
+  match c with CCtx k => check_ctx k | CQuery k => check_query k | CEval k => check_eval k | COp k => check_op k end.
 
 Fixpoint mismatches_from (i : N) (cs : list case) : list N :=
   match cs with
